@@ -271,7 +271,11 @@ class C14(Harness):
                     old = model['src'][op[1]]
                     model['src'][op[1]] = op[2]
                     for i in (0, 1):
-                        if model['link'][i] in (op[1], '?'):
+                        if model['link'][i] == op[1]:
+                            # a link installed at construction or inside the own block, and never legitimately replaced since: it delivers
+                            # (a rejected assignment in between has had no effect on it)
+                            model['held'][i]['cr'] = op[2]
+                        elif model['link'][i] == '?':
                             may_change[(i, 'cr')] = {op[2]}
                     setattr(w[op[1]], 'v', objs[op[2]])
                 elif k == 'pset':
